@@ -116,6 +116,77 @@ func kvStores() map[string]*kvStore {
 				return out, trunc(r.Body, 300), nil
 			},
 		},
+		"alerts": {
+			name: "alerts",
+			// key = alert name; value "1" = condition "is below" (2), threshold 25, message m1; value "2" = the zero values of
+			// every field: condition "is above" (0), threshold 0, empty message. The first put creates the alert (without
+			// its cron job, as the alert-machine part does), later puts go through the update API.
+			put: func(w *kernel.Worker, ns, k, v string) (string, error) {
+				cfg := map[string]string{"1": `"condition":2,"value":25,"message":"m1"`, "2": `"condition":0,"value":0,"message":""`}[v]
+				id, cid, err := kvAlertLookup(w, ns, k)
+				if err != nil {
+					return "", err
+				}
+				body := fmt.Sprintf(`{"alert_name":%s,"alert_type":1,"contact_id":%s,"contact_name":%s,"labels":[],"queryParams":{"data_source":"Logs","queryLanguage":"Splunk QL","queryText":"* | stats count","startTime":"now-5m","endTime":"now","index":"*","queryMode":"Builder"},%s,"eval_for":1,"eval_interval":1`,
+					jq(ns+k), jq(cid), jq("kvc"+ns), cfg)
+				if id == "" {
+					var ar struct {
+						ID    string `json:"id"`
+						Error string `json:"error"`
+					}
+					if err := w.Call("alert", map[string]interface{}{"do": "create", "body": body + "}", "org": 0}, &ar); err != nil {
+						return "", err
+					}
+					return "created " + ar.Error, nil
+				}
+				r, err := httpCall(w, "query", "POST", "/api/alerts/update", body+`,"alert_id":`+jq(id)+"}", kvJS)
+				if err != nil {
+					return "", err
+				}
+				return fmt.Sprintf("%d %s", r.Status, trunc(r.Body, 120)), nil
+			},
+			del: func(w *kernel.Worker, ns, k string) (string, error) {
+				id, _, err := kvAlertLookup(w, ns, k)
+				if err != nil || id == "" {
+					return "absent", err
+				}
+				r, err := httpCall(w, "query", "DELETE", "/api/alerts/delete", `{"alert_id":`+jq(id)+`}`, kvJS)
+				if err != nil {
+					return "", err
+				}
+				return fmt.Sprintf("%d %s", r.Status, trunc(r.Body, 120)), nil
+			},
+			list: func(w *kernel.Worker, ns string) (map[string]string, string, error) {
+				r, err := httpCall(w, "query", "GET", "/api/allalerts", "", nil)
+				if err != nil {
+					return nil, "", err
+				}
+				var m struct {
+					Alerts []struct {
+						Name      string  `json:"alert_name"`
+						Condition int     `json:"condition"`
+						Value     float64 `json:"value"`
+						Message   string  `json:"message"`
+					} `json:"alerts"`
+				}
+				_ = json.Unmarshal([]byte(r.Body), &m)
+				out := map[string]string{}
+				for _, a := range m.Alerts {
+					if !strings.HasPrefix(a.Name, ns) {
+						continue
+					}
+					val := fmt.Sprintf("condition=%d value=%v message=%q", a.Condition, a.Value, a.Message)
+					switch val {
+					case `condition=2 value=25 message="m1"`:
+						val = "1"
+					case `condition=0 value=0 message=""`:
+						val = "2"
+					}
+					out[strings.TrimPrefix(a.Name, ns)] = val
+				}
+				return out, trunc(r.Body, 300), nil
+			},
+		},
 		"aliases": {
 			name: "aliases",
 			// key = alias name, value = the index it points to ("1" → index <ns>i1, "2" → <ns>i2); a put re-points the alias
@@ -164,6 +235,55 @@ func kvStores() map[string]*kvStore {
 			},
 		},
 	}
+}
+
+// kvAlertLookup returns the id of the alert named ns+k ("" if there is none) and the id of the store's contact point,
+// which it creates on first use.
+func kvAlertLookup(w *kernel.Worker, ns, k string) (id, contactID string, err error) {
+	r, err := httpCall(w, "query", "GET", "/api/allalerts", "", nil)
+	if err != nil {
+		return "", "", err
+	}
+	var m struct {
+		Alerts []struct {
+			ID   string `json:"alert_id"`
+			Name string `json:"alert_name"`
+		} `json:"alerts"`
+	}
+	_ = json.Unmarshal([]byte(r.Body), &m)
+	for _, a := range m.Alerts {
+		if a.Name == ns+k {
+			id = a.ID
+		}
+	}
+	find := func() string {
+		c, cerr := httpCall(w, "query", "GET", "/api/alerts/allContacts", "", nil)
+		if cerr != nil {
+			err = cerr
+			return ""
+		}
+		var cs struct {
+			Contacts []struct {
+				ContactID   string `json:"contact_id"`
+				ContactName string `json:"contact_name"`
+			} `json:"contacts"`
+		}
+		_ = json.Unmarshal([]byte(c.Body), &cs)
+		for _, x := range cs.Contacts {
+			if x.ContactName == "kvc"+ns {
+				return x.ContactID
+			}
+		}
+		return ""
+	}
+	if contactID = find(); contactID == "" && err == nil {
+		body := fmt.Sprintf(`{"contact_name":%s,"email":[],"slack":[],"pager_duty":"","webhook":[{"webhook":"http://127.0.0.1:9/none"}]}`, jq("kvc"+ns))
+		if _, err = httpCall(w, "query", "POST", "/api/alerts/createContact", body, kvJS); err != nil {
+			return "", "", err
+		}
+		contactID = find()
+	}
+	return id, contactID, err
 }
 
 var c20KVSeq int64
@@ -286,7 +406,7 @@ func c20KV(rep *kernel.Report, budget *kernel.Budget) {
 	rec(nil)
 	d := &Driver[c20KVJob]{Rep: rep, Pool: serverPool(), Budget: budget,
 		Enumerate: func(emit func(c20KVJob)) {
-			for _, s := range []string{"savedqueries", "lookups", "aliases"} {
+			for _, s := range []string{"savedqueries", "lookups", "aliases", "alerts"} {
 				for _, q := range seqs {
 					emit(c20KVJob{Store: s, Ops: q})
 					emit(c20KVJob{Store: s, Ops: q, Alone: true})
@@ -314,5 +434,5 @@ func c20KV(rep *kernel.Report, budget *kernel.Budget) {
 	}
 	d.Drive()
 	rep.Set("kv_sequences_per_store", len(seqs))
-	rep.Set("kv_stores", []string{"savedqueries", "lookups", "aliases"})
+	rep.Set("kv_stores", []string{"savedqueries", "lookups", "aliases", "alerts"})
 }
